@@ -81,6 +81,16 @@ EXTRAS = [
     dict(lossless=True, slices_x=1, slices_y=1, frame_width=32, frame_height=8, color_diff_format_index=0, dwt_depth=0),
     dict(lossless=False, slices_x=1, slices_y=1, frame_width=32, frame_height=16, color_diff_format_index=1, picture_bytes=1500),
     dict(lossless=False, slices_x=2, slices_y=2, frame_width=16, frame_height=16, picture_bytes=1033, fragment_slice_count=3),
+    # formats that match version-3-only presets (10-bit full range, 48 fps, UHDTV colour) with a symmetric,
+    # unfragmented transform: the preset and the explicit spellings of the header need different versions
+    dict(luma_offset=0, luma_excursion=1023, color_diff_offset=512, color_diff_excursion=1023),
+    dict(frame_rate_numer=48, frame_rate_denom=1),
+    dict(frame_rate_numer=120000, frame_rate_denom=1001, profile=0, picture_bytes=48),
+    dict(color_primaries_index=3, color_matrix_index=4, transfer_function_index=5),
+    dict(luma_offset=256, luma_excursion=3504, color_diff_offset=2048, color_diff_excursion=3584, lossless=True),
+    # ratios that equal a preset / the base default in value but are not in lowest terms
+    dict(frame_rate_numer=50, frame_rate_denom=2),
+    dict(pixel_aspect_ratio_numer=24, pixel_aspect_ratio_denom=22, frame_rate_numer=60000, frame_rate_denom=2002),
 ]
 
 
